@@ -231,6 +231,7 @@ class VTransport(asyncio.Transport):
         self.world, self.me, self.peer = world, me, peer
         self.protocol = None
         self.closing = False
+        self.epoch = getattr(world, 'epoch', 0)     # the execution this transport belongs to
 
     def get_extra_info(self, name, default=None):
         return default
@@ -238,7 +239,14 @@ class VTransport(asyncio.Transport):
     def is_closing(self):
         return self.closing
 
+    def _stale(self):
+        """Objects of an EARLIER execution (e.g. an abandoned coroutine finalised by the garbage collector runs its
+        `async with mpc` exit and closes its transports) must not touch the links of the current execution."""
+        return self.epoch != getattr(self.world, 'epoch', 0)
+
     def write(self, data):
+        if self._stale():
+            return
         self.world._write(self, bytes(data))
 
     def writelines(self, seq):
@@ -248,6 +256,8 @@ class VTransport(asyncio.Transport):
         if self.closing:
             return
         self.closing = True
+        if self._stale():
+            return
         self.world._close(self, None)
 
     def abort(self):
@@ -325,6 +335,7 @@ class World:
     # -- (re)initialisation --------------------------------------------------------------
     def reset(self):
         m = self.m
+        self.epoch = getattr(self, 'epoch', 0) + 1
         for old_loop in getattr(self, 'loops', ()):
             old_loop.set_exception_handler(_ignore_errors)   # garbage of earlier executions
         if self.seams:
